@@ -34,3 +34,6 @@ def run(ctx):
     ctx.run_rule("K3M1", r_consts.rule_K3_M1, cfgs)
     facts = {c: ctx.facts(c) for c in cfgs}
     ctx.run_rule("D3", lambda c: r_dispatch.rule_D3(c, facts))
+    import r_round
+    ctx.run_rule("K4c", r_round.rule_K4_c)
+    ctx.run_rule("K4r", r_round.rule_K4_rust, ["pure-full"])
